@@ -108,6 +108,70 @@ def index_inventory(ctx, r7, R):
     r7.need(12)
 
 
+def debug_hash_order(ctx, r8, R):
+    """`{:?}` of a value is part of an error message when it happens in compile-phase code.  For every type handed to
+    fmt::Argument::new_debug in a body reachable from feed_file (incl. the dyn-bind callbacks), the closure of crate types it
+    contains is computed from the ADT table, and the Debug::fmt body of each of them (derived or manual) must not hand a
+    std HashMap / HashSet to the formatter (an unsizing cast of a reference to one to `dyn Debug`, or a direct call of its
+    Debug::fmt, or DebugMap/DebugSet::entries over its iterator): such output differs between repetitions."""
+    mir = ctx.mir
+    ident = re.compile(r'[A-Za-z_][A-Za-z_0-9]*(?:::[A-Za-z_][A-Za-z_0-9]*)+')
+    dbg_impl = {}
+    for im in mir.impls:
+        if im.get('trait') == 'std::fmt::Debug':
+            dbg_impl[strip_generics(im['self'])] = im['items']
+    roots = {}
+    for bid in sorted(R):
+        b = mir.by_id[bid]
+        for bb, tm in b.calls():
+            nm = strip_generics(tm.get('callee') or tm.get('decl') or '')
+            if nm.endswith('Argument::new_debug'):
+                ty = (tm.get('argtys') or [''])[0]
+                for m in ident.findall(ty):
+                    if m in mir.adts:
+                        roots.setdefault(m, mirq.site(b, bb))
+    seen = {}
+    todo = list(roots.items())
+    while todo:
+        a, via = todo.pop()
+        if a in seen:
+            continue
+        seen[a] = via
+        for v in mir.adts[a]['variants']:
+            for f in v['fields']:
+                for m in ident.findall(f['ty']):
+                    if m in mir.adts and m not in seen:
+                        todo.append((m, via))
+    HASHY = re.compile(r'std::collections::(HashMap|HashSet)<|std::collections::hash_map::(Iter|Keys|Values)|std::collections::hash_set::Iter|hashbrown::')
+    n = 0
+    for a in sorted(seen):
+        items = dbg_impl.get(a)
+        if not items:
+            continue
+        for it in items:
+            fb = mir.by_id.get(it)
+            if fb is None:
+                continue
+            n += 1
+            bad = []
+            for i, j, s in fb.stmts():
+                if s['k'] == 'assign' and s['rv']['k'] == 'cast' and 'dyn std::fmt::Debug' in (s['rv'].get('ty') or ''):
+                    p = op_place(s['rv']['op'])
+                    if p is not None and HASHY.search(fb.local_ty(p['l'])):
+                        bad.append((mirq.site(fb, i, j), fb.local_ty(p['l'])))
+            for bb, tm in fb.calls():
+                tys = ' '.join(tm.get('argtys') or [])
+                nm = strip_generics(tm.get('callee') or tm.get('decl') or '')
+                if HASHY.search(tys) and (nm.endswith('::fmt') or nm.endswith('::entries') or nm.endswith('::entry')):
+                    bad.append((mirq.site(fb, bb), tys))
+            r8.inst({'type': a, 'formatted_at': seen[a], 'debug_impl': fb.span.split(':')[0] + ':' + fb.span.split(':')[1], 'hash_ordered_fields_printed': len(bad)}, ok=not bad, kind=a)
+            if bad:
+                r8.fail('%s/debug-prints-hash-order' % a, bad[0][0], 'Debug for %s prints a hash-ordered collection (%s) and values of this type are {:?}-formatted by compile-phase code (e.g. %s): the text of a compilation error differs between repetitions' % (a, bad[0][1][:60], seen[a]))
+    if n < 5:
+        r8.fail('anchor/debug-impls', '-', 'fewer Debug impls of compile-phase types found than expected (%d)' % n)
+    r8.need(5)
+
+
 def run(ctx):
     mir = ctx.mir
     ast = ctx.ast
@@ -468,3 +532,31 @@ def run(ctx):
     # the index valid (one reason per site; a new unlisted site is reported)
     r7 = ctx.rule('R12.7', 'indexed accesses in compile-phase code are guarded by a length test or listed with the invariant that bounds the index')
     index_inventory(ctx, r7, R)
+
+    # ---------------- R12.8 text produced by the compile phase does not depend on hash order through Debug formatting
+    r8 = ctx.rule('R12.8', 'no type Debug-formatted by compile-phase code prints a hash-ordered collection')
+    debug_hash_order(ctx, r8, R)
+
+    # ---------------- R12.9 the grammar never parses a self-embedding nonterminal twice at one position (pest keeps no memo
+    # table, so each such place doubles the parsing work per level of nesting: "terminates" fails in practice at depth ~40)
+    r9 = ctx.rule('R12.9', 'no grammar rule re-parses a nonterminal that can contain the rule itself (common-prefix alternatives, (X sep)* X)')
+    G = Grammar(ctx.grammar)
+    n9 = 0
+    for name in G.order:
+        if len(G.branches(G.rules[name]['expr'])) >= 2:
+            n9 += 1
+    conflicts = G.reparse_conflicts()
+    for name, i, j, pref, rec in conflicts:
+        shown = ' '.join(s[1] if s[0] != 'lit' else '"%s"' % s[1] for s in pref)
+        r9.inst({'rule': name, 'alternatives': [i, j], 'common_prefix': shown}, ok=False, kind=(name, i, j))
+        r9.fail('grammar/%s/common-prefix/%s' % (name, '-'.join(rec)), 'src/xray.pest', 'alternatives %d and %d of `%s` both begin with %s: when the earlier one fails after `%s`, the later one parses it again, and `%s` can contain `%s`: parsing time doubles with every level of nesting' % (i, j, name, shown, rec[0], rec[0], name))
+    reps = G.repetition_reparse()
+    for name, x in reps:
+        r9.inst({'rule': name, 'pattern': '(%s sep)* %s' % (x, x)}, ok=False, kind=(name, x))
+        r9.fail('grammar/%s/repetition/%s' % (name, x), 'src/xray.pest', '`%s` is written (%s sep)* %s: the last, failing round of the repetition parses `%s` and the next element parses it again; `%s` can contain `%s`: parsing time doubles with every level of nesting' % (name, x, x, x, x, name))
+    r9.inst({'ordered_choices_examined': n9, 'rules_examined': len(G.order)}, ok=True, kind='scan')
+    for _ in range(max(0, n9 - 1)):
+        pass
+    if n9 < 10:
+        r9.fail('anchor/grammar', 'src/xray.pest', 'fewer ordered choices than expected in the grammar (%d)' % n9)
+    r9.need(1)
